@@ -502,6 +502,27 @@ func EmptySlices(root any, exemptTypes ...string) {
 	}
 }
 
+// EmptyNthSlice cuts only the n-th non-empty slice in walk order to length zero, keeping
+// its capacity; false when there are fewer.
+func EmptyNthSlice(root any, n int, exemptTypes ...string) bool {
+	idx := 0
+	var cut *reflect.Value
+	heapWalk(reflect.ValueOf(root), exemptTypes, map[uintptr]bool{}, nil, func(s reflect.Value) {
+		if s.CanSet() && s.Len() > 0 {
+			if idx == n {
+				c := s
+				cut = &c
+			}
+			idx++
+		}
+	}, nil)
+	if cut == nil {
+		return false
+	}
+	cut.Set(cut.Slice(0, 0))
+	return true
+}
+
 // ReachablePointers: every pointer to a named struct type of package pkgPath reachable
 // from root, each once.
 func ReachablePointers(root any, pkgPath string) []any {
